@@ -73,8 +73,10 @@ is_list ground functor/3 arg/3 ``=..``/2 copy_term/2 is/2 ``=:=`` ``=\\=``
 ``<`` ``>`` ``=<`` ``>=`` (integer arithmetic, floats carried through + - * /)
 between/3 length/2 (proper lists and enumeration) assertz/1 asserta/1
 assert/1 retract/1 retractall/1 abolish/1 clause/2 write/1 print/1 writeq/1
-nl/0 atom_length/2 (plain) bb_put/bb_get/bb_b_put (blackboard; backtrackable values
-live in the substitution) put_atts/2 get_atts/2 (one attribute term, no hooks).
+nl/0 atom_length/2 (plain) bb_put/bb_get/bb_b_put (a persistent and a shadowing backtrackable slot per key;
+bb_b_put records the old backtrackable value in the substitution and it is put back when an
+older state is restored) put_atts/2
+get_atts/2 (one attribute term, no hooks).
 
 Choice-point model (only an *upper bound*, see DESIGN section 4.2(iii)): a
 call of a predicate with k > 1 live clauses keeps a choice point until its
@@ -592,6 +594,13 @@ class _Run(object):
         return self.s
 
     def restore(self, s):
+        # global variables written by bb_b_put since the state being restored are put back
+        # (newest first), exactly like trail entries; everything else is just the old dict
+        cur = self.s.get("$bbtrail")
+        tgt = s.get("$bbtrail")
+        while cur is not tgt and cur is not None:
+            k, old, cur = cur
+            self.ref.bb[k] = (self.ref.bb[k][0], old)
         self.s = s
         self.shared = True
 
@@ -681,6 +690,7 @@ class _Run(object):
         """generator of substitutions, one per solution of call(goal)"""
         self.s = subst
         self.shared = True
+        self.s0 = subst
         self.cps = []
         self.goals = (("call", goal), 0, None)
         root = self.root
@@ -690,6 +700,7 @@ class _Run(object):
                 if resume:
                     resume = False
                     if not self.backtrack():
+                        self.restore(self.s0)   # final failure undoes everything (bb_b_put included)
                         return
                     continue
                 if self.goals is None:
@@ -819,6 +830,7 @@ class _Run(object):
             fr = fr[2]
         self.unwind_cps(0)
         self.goals = None
+        self.restore(self.s0)
         raise PrologThrow(ball)
 
     def unwind_cps(self, height):
@@ -1441,27 +1453,32 @@ def _bi_atom_length(e, a):
 
 
 def _bi_bb_put(e, a):
+    # Two slots per key, as in the system under test: a persistent value P (bb_put) and a
+    # backtrackable value B (bb_b_put) that shadows it.  bb_put sets P and clears B.
     k = e.deref(a[0])
-    e.ref.bb[k] = e.copy_fresh(a[1])
+    e.ref.bb[k] = (e.copy_fresh(a[1]), _MISSING)
     return True
 
 
 def _bi_bb_get(e, a):
     k = e.deref(a[0])
-    v = e.s.get(("$bb", k), _MISSING)     # backtrackable value (bb_b_put) shadows the global one
+    pv, bv = e.ref.bb.get(k, (_MISSING, _MISSING))
+    v = bv if bv is not _MISSING else pv
     if v is _MISSING:
-        if k not in e.ref.bb:
-            return False
-        v = e.ref.bb[k]
+        return False
     return e.unify(a[1], e.copy_fresh(v))
 
 
 def _bi_bb_b_put(e, a):
-    # backtrackable: the value lives in the persistent substitution, so it reverts exactly when
-    # bindings do.  (Do not mix bb_put and bb_b_put on one key: the real system's result then
-    # depends on trail order; REF lets the backtrackable value shadow the global one.)
+    # bb_b_put sets B and records (key, old B) in a list kept in the persistent substitution;
+    # _Run.restore puts the old B back for every record made since the restored state.  So a
+    # bb_b_put reverts to the earlier bb_b_put value, or uncovers the bb_put value, and bb_put
+    # values persist.  (A bb_put after a bb_b_put on the same key inside a branch that is undone
+    # is implementation specific: checks should not rely on it.)
     k = e.deref(a[0])
-    e.bind(("$bb", k), e.copy_fresh(a[1]))
+    pv, bv = e.ref.bb.get(k, (_MISSING, _MISSING))
+    e.ref.bb[k] = (pv, e.copy_fresh(a[1]))
+    e.bind("$bbtrail", (k, bv, e.s.get("$bbtrail")))
     return True
 
 
@@ -2039,6 +2056,13 @@ def _selftest():
     check("", "bb_put(k, 1), (bb_put(k, 2), fail ; bb_get(k, V))", ["[2]"])
     check("", "bb_put(k, 1), \\+ \\+ bb_b_put(k, 2), bb_get(k, V)", ["[1]"])
     check("", "bb_put(k, 1), (bb_b_put(k, 2) -> bb_get(k, V) ; true)", ["[2]"])
+    check("", "bb_b_put(k, 0), (bb_b_put(k, 1), bb_b_put(k, 2), fail ; bb_get(k, V))", ["[0]"])
+    check("", "bb_b_put(k, 0), (bb_put(k, 1), fail ; bb_get(k, V))", ["[1]"])
+    check("", "bb_put(k, 0), (bb_put(k, 3), bb_b_put(k, 1), fail ; bb_get(k, V))", ["[3]"])
+    check("", "bb_put(k, 0), (bb_b_put(k, 1), bb_put(k, 2), fail ; bb_get(k, V))", ["[2]"])
+    check("", "bb_b_put(k, 0), catch((bb_b_put(k, 1), throw(x)), _, true), bb_get(k, V)", ["[x,0]"])
+    r = check("", "bb_put(k, 7), bb_b_put(k, 8)", ["[]"])
+    check("", "bb_get(k, V)", ["[7]"], ref=r)
     check("", "put_atts(A, a(1)), (put_atts(A, a(2)), fail ; get_atts(A, a(V)))", ["[_,1]"])
     check("", "\\+ (put_atts(A, a(1)), fail), get_atts(A, -a(_))", ["[_,_]"])
     # deep recursion is iterative
